@@ -771,7 +771,14 @@ func GenCase(prop string, seed uint64, thorough bool) *Case {
 			c.Sched.YieldP = []float64{0.002, 0.01, 0.05}[r.intn(3)]
 		}
 	}
-	if prop == "C07" && len(c.Clients) == 1 && r.p(0.15) {
+	if prop == "C07" && len(c.Clients) == 1 && r.p(0.05) {
+		// the same on the real file storage, with legacy table names
+		ops := c.Clients[0]
+		for i := 0; i < 6; i++ {
+			ops = append(ops, Op{K: "iterrel", Slot: i})
+		}
+		c.Clients[0] = append(ops, Op{K: "fsrw", Ms: int(r.u64() % 1000000)})
+	} else if prop == "C07" && len(c.Clients) == 1 && r.p(0.15) {
 		// space is given back: K rounds of overwrite-everything + full compaction
 		ops := c.Clients[0]
 		for i := 0; i < 6; i++ {
